@@ -24,7 +24,7 @@ def load_verus_units():
             o["engine"] = "verus"
             o["crate"] = unit.get("crate", f.stem)
             o["unit"] = f
-            o["id"] = f"{o['crate']}.verus.{o['name']}"
+            o["id"] = f"{o['crate']}.verus.{o['name']}" if f.stem == o["crate"] else f"{o['crate']}.verus_{f.stem}.{o['name']}"
             class _M:  # minimal stand-in for Module (assumption scan reads .path)
                 pass
             m = _M(); m.path = f; m.crate = o["crate"]; m.configs = {}
